@@ -556,10 +556,7 @@ func (m *modelCtx) evalCache(n *Node, p *PolicySpec) mres {
 			repeated = true
 		}
 	}
-	key := p.Key
-	if (m.v.Op.Ctx == CtxValue || m.v.Op.Ctx == CtxCancelValue) && m.v.Op.CtxKey != "" {
-		key = m.v.Op.CtxKey
-	}
+	key := effectiveCacheKey(p.Key, m.v.Op)
 	if repeated {
 		// the same cache policy appears twice in the stack: reads/writes of the two layers interleave
 		if len(n.Children) == 1 && n.Children[0].Exit != nil {
